@@ -70,11 +70,13 @@ func Untag(raw json.RawMessage) (interface{}, error) {
 			out[kk] = v
 		}
 		return out, nil
-	case "file":
+	case "file", "fstr":
 		var p, n string
+		var c int
 		json.Unmarshal(m["p"], &p)
 		json.Unmarshal(m["n"], &n)
-		return FileRef{Producer: p, Name: n}, nil
+		json.Unmarshal(m["c"], &c)
+		return FileRef{Producer: p, Name: n, Chunk: c}, nil
 	}
 	return nil, fmt.Errorf("unknown tag %q in %s", k, string(raw))
 }
@@ -84,6 +86,47 @@ func Untag(raw json.RawMessage) (interface{}, error) {
 type FileRef struct {
 	Producer string
 	Name     string
+	Chunk    int // -1: written by the stage's main / join job
+}
+
+func (f FileRef) Key() string { return f.Producer + "|" + strconv.Itoa(f.Chunk) + "|" + f.Name }
+
+// FilesIn lists the file references inside a predicted value.
+func FilesIn(v interface{}, out []FileRef) []FileRef {
+	switch x := v.(type) {
+	case FileRef:
+		out = append(out, x)
+	case []interface{}:
+		for _, e := range x {
+			out = FilesIn(e, out)
+		}
+	case map[string]interface{}:
+		for _, k := range SortedKeys(x) {
+			out = FilesIn(x[k], out)
+		}
+	}
+	return out
+}
+
+// Resolve replaces file references by real paths.
+func Resolve(v interface{}, resolve func(FileRef) string) interface{} {
+	switch x := v.(type) {
+	case FileRef:
+		return resolve(x)
+	case []interface{}:
+		o := make([]interface{}, len(x))
+		for i, e := range x {
+			o[i] = Resolve(e, resolve)
+		}
+		return o
+	case map[string]interface{}:
+		o := make(map[string]interface{}, len(x))
+		for k, e := range x {
+			o[k] = Resolve(e, resolve)
+		}
+		return o
+	}
+	return v
 }
 
 // Same reports whether the real JSON value act equals the predicted value.
